@@ -2147,3 +2147,317 @@ def _sort_by_key(E, ci, s, f):
         kb = E.call_value(f, [Ref([b], 0)])
         return E.branch(val_lt(E, ka, kb))
     return _sort_with(E, s, less)
+
+
+# ---------------------------------------------------------------------------- assorted small models
+@model('bool::then')
+def _bool_then(E, ci, b, f):
+    return some(E.call_value(f, [])) if E.branch(b) else none()
+
+
+@model('bool::then_some')
+def _bool_then_some(E, ci, b, v):
+    return some(v) if E.branch(b) else none()
+
+
+@model('Option::zip')
+def _opt_zip(E, ci, a, b):
+    return some(Agg('tuple', 0, [a.fields[0], b.fields[0]])) if a.variant and b.variant else none()
+
+
+@model('Option::xor')
+def _opt_xor(E, ci, a, b):
+    if a.variant and not b.variant:
+        return a
+    if b.variant and not a.variant:
+        return b
+    return none()
+
+
+@model('Option::and')
+def _opt_and(E, ci, a, b):
+    return b if a.variant else none()
+
+
+@model('Option::unwrap_unchecked', 'Result::unwrap_unchecked')
+def _unwrap_unchecked(E, ci, o):
+    return o.fields[0]
+
+
+@model('Option::get_or_insert_with')
+def _get_or_insert_with(E, ci, o, f):
+    v = o.get()
+    if v.variant == 0:
+        v = Agg('Option', 1, [E.call_value(f, [])])
+        o.set(v)
+    return Ref(v.fields, 0)
+
+
+@model('Option::replace')
+def _opt_replace(E, ci, o, v):
+    old = o.get()
+    o.set(some(v))
+    return old
+
+
+@model('Result::or_else')
+def _res_or_else(E, ci, r, f):
+    return r if r.variant == 0 else E.call_value(f, [r.fields[0]])
+
+
+@model('Result::map_or')
+def _res_map_or(E, ci, r, d, f):
+    return E.call_value(f, [r.fields[0]]) if r.variant == 0 else d
+
+
+@model('Result::map_or_else')
+def _res_map_or_else(E, ci, r, d, f):
+    return E.call_value(f, [r.fields[0]]) if r.variant == 0 else E.call_value(d, [r.fields[0]])
+
+
+@model('Result::iter', 'Option::iter', 'Option::into_iter', 'Result::into_iter')
+def _opt_iter(E, ci, o):
+    v = deref(o)
+    good = 1 if v.ty == 'Option' else 0
+    items = [Ref(v.fields, 0) if isinstance(o, Ref) else v.fields[0]] if v.variant == good else []
+    return mk_list_iter(items)
+
+
+@model('Ordering::then')
+def _ord_then(E, ci, a, b):
+    return a if a.variant != 0 else b
+
+
+@model('Ordering::then_with')
+def _ord_then_with(E, ci, a, f):
+    return a if a.variant != 0 else E.call_value(f, [])
+
+
+@model('Ordering::is_le')
+def _ord_is_le(E, ci, o):
+    return o.variant <= 0
+
+
+@model('Ordering::is_ge')
+def _ord_is_ge(E, ci, o):
+    return o.variant >= 0
+
+
+@model('Ordering::is_ne')
+def _ord_is_ne(E, ci, o):
+    return o.variant != 0
+
+
+@model('char::is_digit')
+def _char_is_digit(E, ci, c, radix):
+    if radix.v == 10:
+        return in_range(_ch(c), 48, 57)
+    if radix.v == 16:
+        c = _ch(c)
+        return b_or(in_range(c, 48, 57), in_range(c, 65, 70), in_range(c, 97, 102))
+    raise ModelGap('is_digit radix')
+
+
+@model('char::is_ascii_hexdigit', 'u8::is_ascii_hexdigit')
+def _is_ascii_hexdigit(E, ci, c):
+    c = _ch(c)
+    return b_or(in_range(c, 48, 57), in_range(c, 65, 70), in_range(c, 97, 102))
+
+
+@model('char::is_ascii_control', 'u8::is_ascii_control')
+def _is_ascii_control(E, ci, c):
+    c = _ch(c)
+    return b_or(in_range(c, 0, 31), in_range(c, 127, 127))
+
+
+@model('char::is_ascii_graphic', 'u8::is_ascii_graphic')
+def _is_ascii_graphic(E, ci, c):
+    return in_range(_ch(c), 33, 126)
+
+
+@model('char::is_control')
+def _is_control(E, ci, c):
+    c = _ch(c)
+    return b_or(in_range(c, 0, 31), in_range(c, 127, 159))
+
+
+for _t in ('u8', 'u16', 'u32', 'u64', 'usize', 'i8', 'i16', 'i32', 'i64', 'isize'):
+    MODELS[f'{_t}::from_str_radix'] = (lambda E, ci, s, radix, _t=_t: parse_int(E, as_slice(s), _t)
+                                       if radix.v == 10 else (_ for _ in ()).throw(ModelGap('from_str_radix')))
+    MODELS[f'{_t}::abs_diff'] = (lambda E, ci, a, b: E.binop('Sub', a, b) if E.branch(i_cmp('Ge', a, b))
+                                 else E.binop('Sub', b, a))
+    MODELS[f'{_t}::pow'] = None
+    del MODELS[f'{_t}::pow']
+
+
+@model('String::insert')
+def _string_insert(E, ci, s, i, c):
+    v = deref(s)
+    i = E.concretize(i)
+    if i > len(v.buf) or not is_char_boundary(E, v.view(), i):
+        raise Panic('String::insert: not a char boundary')
+    v.buf[i:i] = encode_char(E, c)
+    return UNIT
+
+
+@model('String::insert_str')
+def _string_insert_str(E, ci, s, i, t):
+    v = deref(s)
+    i = E.concretize(i)
+    if i > len(v.buf) or not is_char_boundary(E, v.view(), i):
+        raise Panic('String::insert_str: not a char boundary')
+    v.buf[i:i] = list(items_of(t))
+    return UNIT
+
+
+@model('String::remove')
+def _string_remove(E, ci, s, i):
+    v = deref(s)
+    i = E.concretize(i)
+    if i >= len(v.buf) or not is_char_boundary(E, v.view(), i):
+        raise Panic('String::remove: not a char boundary')
+    c, n = decode_char(E, v.buf, i)
+    del v.buf[i:i + n]
+    return c
+
+
+@model('String::retain')
+def _string_retain(E, ci, s, f):
+    v = deref(s)
+    out = []
+    for off, c, n in char_positions(E, v.view()):
+        if E.branch(E.call_value(f, [c])):
+            out += v.buf[off:off + n]
+    v.buf[:] = out
+    return UNIT
+
+
+@model('String::replace_range')
+def _string_replace_range(E, ci, s, r, t):
+    v = deref(s)
+    lo, hi = range_bounds(E, r, len(v.buf))
+    if lo > hi or hi > len(v.buf) or not is_char_boundary(E, v.view(), lo) or not is_char_boundary(E, v.view(), hi):
+        raise Panic('replace_range out of range')
+    v.buf[lo:hi] = list(items_of(t))
+    return UNIT
+
+
+@model('str::char_count', 'str::chars_count')
+def _str_char_count(E, ci, s):
+    return USZ(len(char_positions(E, as_slice(s))))
+
+
+@model('str::rsplit_terminator')
+def _rsplit_terminator(E, ci, s, pat):
+    s = as_slice(s)
+    ps = pieces(s, find_all(E, s, pat))
+    if ps and len(ps[-1]) == 0:
+        ps.pop()
+    return mk_list_iter(ps[::-1])
+
+
+@model('slice::chunks_exact')
+def _chunks_exact(E, ci, s, n):
+    s = as_slice(s)
+    n = E.concretize(n)
+    if n == 0:
+        raise Panic('chunk size must be non-zero')
+    return mk_list_iter([s.sub(i, i + n) for i in range(0, len(s) - n + 1, n)])
+
+
+@model('slice::rsplit', 'slice::splitn', 'slice::split_inclusive')
+def _slice_split_variants(E, ci, s, *a):
+    s = as_slice(s)
+    pred = a[-1]
+    limit = E.concretize(a[0]) if ci.method == 'splitn' else None
+    out = []
+    last = 0
+    for i in range(len(s)):
+        if limit is not None and len(out) >= limit - 1:
+            break
+        if E.branch(E.call_value(pred, [Ref(s.buf, s.a + i)])):
+            out.append(s.sub(last, i + 1 if ci.method == 'split_inclusive' else i))
+            last = i + 1
+    if not (ci.method == 'split_inclusive' and last == len(s)):
+        out.append(s.sub(last, len(s)))
+    return mk_list_iter(out[::-1] if ci.method == 'rsplit' else out)
+
+
+@model('slice::binary_search')
+def _binary_search(E, ci, s, x):
+    s = as_slice(s)
+    for i, y in enumerate(s.items()):
+        if E.branch(val_eq(E, y, x)):
+            return ok(USZ(i))
+        if E.branch(val_lt(E, x, y)):
+            return err(USZ(i))
+    return err(USZ(len(s)))
+
+
+@model('slice::rotate_left')
+def _rotate_left(E, ci, s, k):
+    s = as_slice(s)
+    k = E.concretize(k)
+    if k > len(s):
+        raise Panic('rotate_left: mid > len')
+    it = s.items()
+    s.buf[s.a:s.b] = it[k:] + it[:k]
+    return UNIT
+
+
+@model('Vec::dedup_by_key')
+def _dedup_by_key(E, ci, v, f):
+    v = deref(v)
+    out = []
+    for x in v.buf:
+        if out:
+            ka = E.call_value(f, [Ref([out[-1]], 0)])
+            kb = E.call_value(f, [Ref([x], 0)])
+            if E.branch(val_eq(E, ka, kb)):
+                continue
+        out.append(x)
+    v.buf[:] = out
+    return UNIT
+
+
+@model('Vec::resize')
+def _vec_resize(E, ci, v, n, x):
+    v = deref(v)
+    n = E.concretize(n)
+    if n < len(v.buf):
+        del v.buf[n:]
+    else:
+        v.buf.extend(clone_val(E, x) for _ in range(n - len(v.buf)))
+    return UNIT
+
+
+@model('Vec::swap_remove')
+def _swap_remove(E, ci, v, i):
+    v = deref(v)
+    i = E.concretize(i)
+    if i >= len(v.buf):
+        raise Panic('swap_remove index out of bounds')
+    v.buf[i], v.buf[-1] = v.buf[-1], v.buf[i]
+    return v.buf.pop()
+
+
+@model('Vec::split_first', 'Vec::split_last')
+def _vec_split_fl(E, ci, v):
+    return MODELS['slice::' + ci.method](E, ci, v)
+
+
+@model('Vec::starts_with', 'Vec::ends_with')
+def _vec_sw(E, ci, v, p):
+    return MODELS['slice::' + ci.method](E, ci, v, p)
+
+
+@model('Vec::join', 'Vec::concat')
+def _vec_join(E, ci, v, *sep):
+    return MODELS['slice::join'](E, ci, v, *sep)
+
+
+@model('Vec::windows', 'Vec::chunks', 'Vec::split', 'Vec::reverse', 'Vec::to_vec', 'Vec::fill')
+def _vec_forward(E, ci, v, *a):
+    if ci.method == 'to_vec':
+        return MODELS['slice::to_vec'](E, ci, v)
+    return MODELS['slice::' + ci.method](E, ci, v, *a)
